@@ -18,6 +18,7 @@ import (
 	"verifharness/props/c07"
 	"verifharness/props/c08"
 	"verifharness/props/c09"
+	"verifharness/props/c11"
 	"verifharness/props/c12"
 	"verifharness/props/c13"
 	"verifharness/props/c15"
@@ -29,6 +30,7 @@ var registry = map[string]func() fw.Prop{
 	"C02": func() fw.Prop { return c02.Prop{} },
 	"C09": func() fw.Prop { return c09.Prop{} },
 	"C05": func() fw.Prop { return c05.Prop{} },
+	"C11": func() fw.Prop { return c11.Prop{} },
 	"C10": func() fw.Prop { return c02.C10{} },
 	"C01": func() fw.Prop { return c02.C01{} },
 	"C18": func() fw.Prop { return c02.C18{} },
